@@ -385,15 +385,24 @@ def run_plan(base, item, seed):
             out.append(("dir/%s/observers-raise/%s/%s" % (binding, type(e).__name__, pk), {"error": repr(e)[:300]}))
 
     # (a) SDL bindings
+    fresh = None
     for binding in ("sdl", "apply"):
         log = []
         classes = dirreplay.directive_classes(log)
         try:
             if binding == "sdl":
-                schema = build_schema(text, schema_directives=classes)
+                schema = fresh = build_schema(text, schema_directives=classes)
             else:
                 schema = build_schema(text)
                 dirreplay.attach(schema, base, opsreplay.Ids())
+                # operations VALIDATED before the in-place transform (which fills whatever the schema object memoises about its types)
+                # and again afterwards: the second verdict is the verdict of the transformed value, i.e. that of the schema built with
+                # the directives in one go
+                from py_gql.lang import parse as _parse
+                from py_gql.validation import validate_ast
+                vdocs = [_parse(q) for q in VPROBES]
+                for d_ in vdocs:
+                    validate_ast(schema, d_)
                 # a document parsed ONCE and served before and after the in-place transform (servers cache parsed documents)
                 probe = None
                 gone = {(an["site"]["s"], an["site"]["t"], an["site"]["f"], an["site"]["a"]) for an in plan if an["e"]["d"] == "drop"}
@@ -406,6 +415,12 @@ def run_plan(base, item, seed):
                     if r0.errors:
                         raise RuntimeError("probe document fails before the transform: %s" % r0.errors[0])
                 schema = apply_schema_directives(schema, classes)
+                if fresh is not None and not misuse:
+                    for q_, d_ in zip(VPROBES, vdocs):
+                        v_here, v_fresh = bool(validate_ast(schema, d_)), bool(validate_ast(fresh, _parse(q_)))
+                        if v_here != v_fresh:
+                            out.append(("dir/apply/validation-verdict-depends-on-earlier-validations/%s/%s" % ("stale-valid" if v_here else "stale-invalid", pk),
+                                        {"document": q_, "after_in_place_transform": v_here, "schema_built_in_one_go": v_fresh}))
                 if probe is not None and not misuse:
                     r1 = graphql_blocking(schema, probe)
                     if r1.errors:
@@ -443,6 +458,11 @@ def run_plan(base, item, seed):
         judge(b, res, exp_full)
         judge(b, src, base_norm, role="source")
     return out
+
+
+# operations whose validity depends on which types overlap / exist in the schema value
+VPROBES = ["{ node(id: 1) { ... on W { __typename } } }", "{ any { ... on Node { id } } }", "{ node(id: 1) { ... on U { __typename } } }",
+           "{ any { ... on Person { label } ... on Item { label } } }", "{ items { owner { ... on Node { id } } } }"]
 
 
 def _plan_worker(args):
